@@ -36,6 +36,15 @@ type charsetModel struct {
 	xml       *ssa.Function
 }
 
+// needBOM: rules that reason about "the BOM lookup" cannot say anything when
+// that function was not identified (a re-laid-out table, a hand-written prefix
+// test): undecided, never a violation.
+func (m *charsetModel) needBOM() {
+	if m.bomFn == nil {
+		core.Bail("the BOM lookup (a function ranging over a package-level table of (mark, name) entries with bytes.HasPrefix on its input) was not identified; the rules that depend on it cannot be set up")
+	}
+}
+
 // isSnifferMap: v denotes the sniffer map (the MakeMap itself or a load of the
 // package variable holding it).
 func (m *charsetModel) isSnifferMap(v ssa.Value) bool {
